@@ -2136,6 +2136,9 @@ def read_lines(path_or_source, *, include=False, include_dirs=None):
 
             # modify the line by appending the size to the end (too hacky?)
             line.contents = '{} {}'.format(raw_line, size)
+            # remember where the lookup found the file: the written path is
+            # relative to the including file / search dirs, not to the cwd
+            line.include_bytes_path = include_path
             lines.append(line)
         else:
             lines.append(line)
@@ -2250,6 +2253,7 @@ def parse_item(line_tokens):
             raise AssemblerError('include_bytes must specify a file', line)
         _, path, size = tokens
         size = int(size, base=0)
+        path = getattr(line, 'include_bytes_path', path)
         return IncludeBytes(line, path, size)
     # strings
     elif head == 'string':
